@@ -179,7 +179,7 @@ class Contracts:
                 if ma:
                     arm = ma.group(1)
                     s = s[:ma.start()]
-                m = re.match(r'@proof\s+(\S+)\s+(entry|before|after|loopstart)(?:\s+/(.*)/\s*(\d+)?)?\s*$', s)
+                m = re.match(r'@proof\s+(\S+)\s+(entry|before-stmt|before|after|loopstart)(?:\s+/(.*)/\s*(\d+)?)?\s*$', s)
                 if not m:
                     raise ExtractError('%s:%d bad @proof' % (path, ln))
                 cur = ('proof', m.group(1), m.group(2), m.group(3), int(m.group(4) or 0), ln, arm)
@@ -309,6 +309,7 @@ class UnitBuild:
         self.used_loops = set()
         self.used_proofs = set()
         self.used_closures = set()
+        self.lost_hints = []
 
     def src(self, rel):
         if rel not in self.sources:
@@ -435,7 +436,12 @@ class UnitBuild:
                 continue
             for idx in range(len(lst)):
                 if (k, idx) not in self.used_proofs:
-                    raise ExtractError('proof block %s #%d matched no anchor' % (k, idx))
+                    if os.environ.get('VERIF_STRICT_HINTS') == '1':
+                        raise ExtractError('proof block %s #%d matched no anchor' % (k, idx))
+                    # a proof HINT that can no longer be placed (the function was restructured) is dropped: hints carry no
+                    # obligation; the contract clauses themselves are still checked (and recorded as lost in the evidence)
+                    if (k, idx) not in self.lost_hints:
+                        self.lost_hints.append((k, idx))
         # all min_counts reached
         for rw in self.unit.REWRITES:
             if rw.min_count and self.rule_counts.get(rw.rule, 0) < rw.min_count:
@@ -797,8 +803,27 @@ class UnitBuild:
                 inserts.append((nlb, ('\n' + ntext + '\n', 'contract', nln + 1)))
             self.used_nested = getattr(self, 'used_nested', set()) | {(q, nname)}
             self.count('S-nested-contract', 1)
-        # proof blocks
-        for idx, (where, rx, nth, ptext, pln, parm) in enumerate(self.contracts.proofs.get(q, [])):
+        # proof blocks.  If one hint of this function can no longer be placed (restructured function), ALL hints of the
+        # function are dropped (they refer to each other's ghost variables); the contract clauses are still checked.
+        plist = self.contracts.proofs.get(q, [])
+        if plist and os.environ.get('VERIF_STRICT_HINTS') != '1' and not it.contract_q:
+            def _placeable(where, rx, nth, parm):
+                if where in ('entry',):
+                    return True
+                if where == 'loopstart':
+                    return any(rx is None or re.search(rx, bm[lpos:match_delim(bm, lpos)]) for (kw, kpos, lpos) in loops)
+                hits = list(re.finditer(rx, bm))
+                if parm:
+                    spans = [(lpos, match_delim(bm, lpos)) for (kw, kpos, lpos) in loops
+                             if re.search(parm + r'[^=]*=>\s*$', bm[max(0, kpos - 160):kpos])]
+                    hits = [h for h in hits if any(a <= h.start() <= b for a, b in spans)]
+                return len(hits) > nth
+            if not all(_placeable(w, rx, nth, parm) for (w, rx, nth, _t, _l, parm) in plist):
+                for idx in range(len(plist)):
+                    self.lost_hints.append((q, idx))
+                    self.used_proofs.add((q, idx))
+                plist = []
+        for idx, (where, rx, nth, ptext, pln, parm) in enumerate(plist):
             if ptext.count('{') != ptext.count('}'):
                 raise ExtractError('unbalanced proof block for ' + q)
             if where == 'loopstart':
@@ -825,8 +850,18 @@ class UnitBuild:
                 if len(hits) <= nth:
                     if it.contract_q:
                         continue    # a part of a split function: the anchor lives in another part (checked at the end)
-                    raise ExtractError('proof anchor /%s/ #%d not found in %s' % (rx, nth, q))
-                pos = hits[nth].start() if where == 'before' else hits[nth].end()
+                    if os.environ.get('VERIF_STRICT_HINTS') == '1':
+                        raise ExtractError('proof anchor /%s/ #%d not found in %s' % (rx, nth, q))
+                    self.lost_hints.append((q, idx))
+                    self.used_proofs.add((q, idx))
+                    continue
+                pos = hits[nth].start() if where in ('before', 'before-stmt') else hits[nth].end()
+                if where == 'before-stmt':
+                    # move back to the start of the enclosing statement (after the previous `;`, `{` or `}`)
+                    j = pos
+                    while j > 0 and bm[j - 1] not in ';{}':
+                        j -= 1
+                    pos = j
             self.used_proofs.add((q, idx))
             inserts.append((pos, (wrap_proof(ptext), 'contract', pln + 1)))
         self.gen.add(sig.rstrip(), 'repo', it.file, line0, q)
